@@ -80,8 +80,17 @@ def gen_engine():
     if not m:
         raise GenError("call_external_function: string-evaluation guard not recognised")
     guard_fixed = m.group(1) == "!"
-    facts = {"engine.cont_check_first": cont_first, "engine.path_validated_first": path_first,
-             "engine.eval_args_first": eval_first, "engine.ext_guard_fixed": guard_fixed}
+    # 11. async guards on the remaining state-changing calls
+    stt = strip_comments(vlib.repo_file("runtime/src/story/state.rs"))
+    flw = strip_comments(vlib.repo_file("runtime/src/story/flow.rs"))
+    g_setvar = "if_async_we_cant(" in fn_body(stt, "set_variable")
+    g_load = "if_async_we_cant(" in fn_body(stt, "load_state")
+    g_rmflow = "if_async_we_cant(" in fn_body(flw, "remove_flow")
+    g_swdef = "if_async_we_cant(" in fn_body(flw, "switch_to_default_flow")
+    facts = {"engine.guard_setvar": g_setvar, "engine.guard_remove_flow": g_rmflow,
+             "engine.guard_switch_default": g_swdef, "engine.guard_load": g_load}
+    facts.update({"engine.cont_check_first": cont_first, "engine.path_validated_first": path_first,
+             "engine.eval_args_first": eval_first, "engine.ext_guard_fixed": guard_fixed})
     facts.update({"engine.alias_current": alias, "engine.warnings_cleared": warn,
              "engine.observer_removal_checked": ob_checked, "engine.remove_flow_checked": rf_checked,
              "engine.ovf_panics": ovf})
@@ -96,5 +105,9 @@ def gen_engine():
            f"Definition cont_check_first : bool := {b(cont_first)}.\n"
            f"Definition path_validated_first : bool := {b(path_first)}.\n"
            f"Definition eval_args_first : bool := {b(eval_first)}.\n"
-           f"Definition ext_guard_fixed : bool := {b(guard_fixed)}.\n")
+           f"Definition ext_guard_fixed : bool := {b(guard_fixed)}.\n"
+           f"Definition guard_setvar : bool := {b(g_setvar)}.\n"
+           f"Definition guard_remove_flow : bool := {b(g_rmflow)}.\n"
+           f"Definition guard_switch_default : bool := {b(g_swdef)}.\n"
+           f"Definition guard_load : bool := {b(g_load)}.\n")
     return write_if_changed("theories/Gen/EngineGen.v", out), facts
